@@ -242,8 +242,8 @@ func c35interrupted(c *rig.Ctx) {
 		transfer, kind string
 		n              int
 	}
-	maxN := c.Pick(5, 60)
-	workers := 5
+	maxN := c.Pick(4, 60)
+	workers := 8
 
 	// enumerate runs fn for N = 1.. per kind (kinds in parallel, N sequential so that we stop at the first survivor)
 	enumerate := func(transfer string, kinds []string, fn func(j job, base string) (killed bool)) {
